@@ -29,6 +29,7 @@ def parseErrVal : Option String → Option ErrVal
   | some "eof" => some .eof | some "pipe" => some .closedPipe | some "timeout" => some .timeout
   | some "optimeout" => some .opTimeout | some "deadline" => some .deadline
   | some "ctxdeadline" => some .ctxDeadline | some "dnstimeout" => some .dnsTimeout
+  | some "ctl" => some .controlText | some "nonascii" => some .nonAsciiText
   | _ => none
 
 def parseRq (ek : Option String) : String → Option ReqB
